@@ -182,7 +182,8 @@ Definition slice := option (Z * Z * Z).
 Definition check_slice (start end_ step sz : Z) : bool :=
   negb (end_ <? start) && negb (start <? 0)
   && negb ((step =? 0) && (1 <? end_ - start))
-  && negb (sz <=? start).
+  && negb (sz <=? start)
+  && negb (step <? 0).            (* SliceDetails' own test since the repair c.f. utils.go: a negative step is refused *)
 
 (* SliceDetails: (start, end clamped, step) or an error *)
 Definition slice_details (s : slice) (sz : Z) : option (Z * Z * Z) :=
